@@ -30,9 +30,13 @@ THEOREMS = ['Nb.C12.' + t for t in [
     'table_wf', 'table_rw_modelled', 'table_mgz_fresh', 'table_exts_lower', 'table_valid_exts',
     'table_members_loadable', 'table_codecs', 'table_serial_single',
     'named_file_is_written_generic', 'named_file_is_written', 'mgz_named_file_is_written',
-    'orig_mixed_case_counterexample', 'sibling_case_rule', 'table_names_letters', 'sibling_name_same_files', 'load_finds_class', 'load_finds_writer',
+    'orig_mixed_case_counterexample', 'sibling_case_rule', 'table_names_letters', 'sibling_name_same_files_partial', 'mixed_case_sibling_counterexample', 'load_finds_class', 'load_finds_writer',
     'load_class_case_insensitive', 'codec_same_for_read_and_write', 'mgz_codec', 'routes_equal',
     'multi_file_not_serialisable',
+    'table_opener_keys', 'opener_classes_agree_except_mgz', 'load_returns_writer', 'sniffFile_is_written_header',
+    'table_findRow', 'save_then_load_returns_writer', 'save_load_after_any_opener_calls',
+    'hist_independent_of_opener_calls', 'save_obs_independent_of_history', 'codec_case_insensitive',
+    'holders_agree', 'backward_and_dangling_seek_counterexamples', 'routes_equal_holder',
 ]]
 ASSUMPTIONS = [
     'hand-written Lean model (Model/C12.lean) of filename_parser.py, posixpath.splitext, '
@@ -372,6 +376,8 @@ def case_from_data(d):
                        d.get('stream', 'save'), d.get('endian'))
     if op == 'hist':
         return mk_hist(d['steps'], d.get('stream', 'hist'))
+    if op == 'wprog':
+        return mk_wprog(d['kind'], d['ops'], d.get('stream', 'wprog'), d.get('cls'), d.get('endian'))
     if op in ('tf', 'tforig', 'parse', 'sae', 'codec', 'ext'):
         return mk_simple(op, d['name'], d.get('cls'), d.get('flags', ()), d.get('stream'))
     raise ValueError(d)
@@ -538,6 +544,7 @@ def cases(rng, tier):
                     out.append(mk_save(cls, dp, st, e, es, ss, rng.random() < 0.3, 'save-cross',
                                        rng.choice(['<', '>'])))
     out.extend(hist_cases(rng, tier))
+    out.extend(wprog_cases(rng, tier))
     return out
 
 
@@ -548,7 +555,8 @@ def cases(rng, tier):
 # a worker that has done nothing but `import nibabel`), so that process-wide state (class / module level
 # caches, registries filled on first use) and the ORDER of operations are generator dimensions:
 #   {'k': 'O'|'I', 'rel': name}             base `Opener` / `ImageOpener` writes a side file under side/
-#   {'k': 'S', 'id': n, 'cls', 'dir', 'stem', 'ext', 'ext_sp', 'sfx_sp', 'as_path'}   nib.save into s<n>/
+#   {'k': 'S', 'id': n, 'cls', 'dir', 'stem', 'ext', 'ext_sp', 'sfx_sp', 'as_path'[, 'home': m]}   nib.save into
+#                                            s<n>/ (or into s<m>/, the directory of an EARLIER save: overwriting)
 #   {'k': 'L', 'sid': n, 'rel', 'as_path', 'of': n|None}    nib.load (+ data); `of` = the S step whose image
 #                                                            it must return (None: model comparison only)
 #   {'k': 'R', 'sid': n, 'a': rel, 'b': rel}                os.rename
@@ -558,7 +566,7 @@ SIDE_PAYLOAD = b'side file, not an image\n' * 3
 
 def step_rel(st):
     if st['k'] == 'S':
-        return f's{st["id"]}/' + (st['dir'] + '/' if st['dir'] else '') + st['stem'] + st['ext_sp'] + st['sfx_sp']
+        return f's{st.get("home", st["id"])}/' + (st['dir'] + '/' if st['dir'] else '') + st['stem'] + st['ext_sp'] + st['sfx_sp']
     return st['rel']
 
 
@@ -610,7 +618,10 @@ def run_history(steps):
                 rel = step_rel(st)
                 full = os.path.join(tmp, rel)
                 os.makedirs(os.path.dirname(full), exist_ok=True)
-                sdir = os.path.join(tmp, f's{st["id"]}')
+                home = st.get('home', st['id'])
+                sdir = os.path.join(tmp, f's{home}')
+                for f in listing(sdir):          # files of earlier steps: mark, to tell what THIS save writes
+                    os.utime(os.path.join(sdir, f), ns=(1, 1))
                 img = make_image(st['cls'])
                 saved[st['id']] = st['cls']
                 with _SpyToFilename() as spy:
@@ -619,7 +630,7 @@ def run_history(steps):
                     except fbi.ImageFileError:
                         res.append({'obs': 'ERR', 'files': listing(sdir)})
                         continue
-                files = [f's{st["id"]}/' + f for f in listing(sdir)]
+                files = [f's{home}/' + f for f in listing(sdir) if os.stat(os.path.join(sdir, f)).st_mtime_ns != 1]
                 raw = {f: open(os.path.join(tmp, f), 'rb').read() for f in files}
                 wrote = spy.seen[-1]
                 r = {'obs': f'W={wrote},' + '|'.join(f'{enc(f)}:{codec_of_bytes(raw[f])}' for f in sorted(files)),
@@ -881,11 +892,23 @@ def hist_cases(rng, tier):
         sid = 0
         for _ in range(rng.randrange(0, 4)):
             steps.append(hist_opener_step(rng))
+        prev = []
         for _ in range(rng.randrange(1, 4)):
             sid += 1
             st = hist_save_step(rng, sid)
+            if prev and rng.random() < 0.35:
+                # overwrite: ANOTHER class saved under (a case variant of) the name an earlier step used
+                old = rng.choice(prev)
+                same_ext = [c for c in WRITABLE if c != old['cls'] and old['ext'] in member_exts(c)]
+                if same_ext and old['ext'] != '.mgz':
+                    c2 = rng.choice(same_ext)
+                    ss2 = old['sfx_sp'] if any(old['sfx_sp'].lower() == x.lower() for x in [''] + class_suffixes(c2)) else ''
+                    es2 = old['ext_sp'] if rng.random() < 0.6 else _pick_spelling(rng, old['ext'])
+                    st = {**old, 'id': sid, 'home': old.get('home', old['id']), 'cls': c2, 'ext_sp': es2, 'sfx_sp': ss2,
+                          'as_path': rng.random() < 0.4}
             if not zst and st['sfx_sp'].lower() == '.zst':
                 st['sfx_sp'] = ''
+            prev.append(st)
             steps.append(st)
             if rng.random() < 0.4:
                 steps.append(hist_opener_step(rng))
@@ -941,6 +964,150 @@ def oracle_hist(case, out):
             if r.get('digest') != ref_dig or not r.get('same_data'):
                 return f'{tag}: loaded data differ from the data saved'
     return None
+
+
+
+# --------------------------------------------------------------------------- write programs on the holder kinds
+#
+# `to_file_map` of every serialisable class is a sequence of `fileobj.write(b)` and
+# `seek_tell(fileobj, off, write0=True)`; the model (`raRun` / `seqRun`) says what ends up on a random-access
+# object (BytesIO, plain file) and on a sequential compressed writer (gzip, bz2, zstd).  kind in WKINDS.
+
+WKINDS = {'bytesio': 'ra', 'plain': 'ra', 'gz': 'seq', 'bz2': 'seq', 'zst': 'seq'}
+WSUFFIX = {'plain': '.bin', 'gz': '.gz', 'bz2': '.bz2', 'zst': '.zst'}
+SERIAL = ['Nifti1Image', 'Nifti2Image', 'Cifti2Image', 'MGHImage', 'GiftiImage']
+
+
+def mk_wprog(kind, ops, stream='wprog', cls=None, endian=None):
+    toks = ' '.join(('w' + (o[1] or '-')) if o[0] == 'w' else f's{o[1]}' for o in ops)
+    d = {'op': 'wprog', 'kind': kind, 'ops': [list(o) for o in ops], 'stream': stream, 'cls': cls, 'endian': endian}
+    return Case(f'C12 wprog {WKINDS[kind]} {toks}', d, ('wprog', kind, toks), stream)
+
+
+class _RecBytesIO(io.BytesIO):
+    """records the write / seek calls a serialiser makes"""
+
+    def __init__(self):
+        super().__init__()
+        self.ops = []
+
+    def write(self, b):
+        self.ops.append(['w', bytes(b).hex()])
+        return super().write(b)
+
+    def seek(self, pos, whence=0):
+        self.ops.append(['s', int(pos)] if whence == 0 else ['x', int(pos), int(whence)])
+        return super().seek(pos, whence)
+
+
+def recorded_program(cls, endian=None):
+    rec = _RecBytesIO()
+    make_image(cls, endian).to_stream(rec)
+    return rec.ops
+
+
+def _wprog_ref(ops):
+    """independent reference: the same calls on a plain BytesIO -> (bytes, monotone, complete)"""
+    ref, mono = io.BytesIO(), True
+    for o in ops:
+        if o[0] == 'w':
+            ref.write(bytes.fromhex(o[1]))
+        else:
+            if o[1] < ref.tell():
+                mono = False
+            ref.seek(o[1])
+    return ref.getvalue(), mono, ref.tell() == len(ref.getvalue())
+
+
+def impl_wprog(case):
+    from nibabel.openers import ImageOpener
+    from nibabel.volumeutils import seek_tell
+    d = case.data
+    kind, ops = d['kind'], d['ops']
+    if any(o[0] not in ('w', 's') for o in ops):
+        return 'ERR:unsupported-seek-whence'
+    _, mono, complete = _wprog_ref(ops)
+    flags = f'|m{int(mono)}|c{int(complete)}'
+    tmp = None
+    try:
+        if kind == 'bytesio':
+            bio = io.BytesIO()
+            f = ImageOpener(bio)
+        else:
+            tmp = tempfile.mkdtemp(prefix='c12w_')
+            path = os.path.join(tmp, 'prog' + WSUFFIX[kind])
+            f = ImageOpener(path, 'wb')
+        try:
+            for o in ops:
+                if o[0] == 'w':
+                    f.write(bytes.fromhex(o[1]))
+                else:
+                    seek_tell(f, o[1], write0=True)
+        except OSError:
+            f.close_if_mine()
+            return 'ERR' + flags
+        f.close_if_mine()
+        raw = None if kind == 'bytesio' else open(path, 'rb').read()
+        got = bio.getvalue() if kind == 'bytesio' else decompress(raw)
+        # (a zstd writer that was given no byte at all leaves an empty file: no frame, nothing to decompress)
+        if kind not in ('bytesio', 'plain') and raw and codec_of_bytes(raw) == 0:
+            return 'ERR:not-compressed' + flags
+        return (got.hex() or '-') + flags
+    finally:
+        if tmp:
+            shutil.rmtree(tmp, ignore_errors=True)
+
+
+def oracle_wprog(case, out):
+    d = case.data
+    ref, mono, complete = _wprog_ref([o for o in d['ops'] if o[0] in ('w', 's')])
+    tag = f'write program on a {d["kind"]} holder'
+    if d.get('cls'):
+        tag = f'{d["cls"]}.to_file_map write program' + (f' (header byte order {d["endian"]})' if d.get('endian') else '') + \
+            f' replayed on a {d["kind"]} holder'
+        if any(o[0] not in ('w', 's') for o in d['ops']) or not (mono and complete):
+            return f'{tag}: the serialiser seeks backwards / relative / leaves a dangling seek (monotone={mono}, complete={complete})'
+        if ref != make_image(d['cls'], d.get('endian')).to_bytes():
+            return f'{tag}: replaying the recorded calls does not reproduce to_bytes()'
+    if mono and complete:
+        got = out.split('|')[0]
+        if got != (ref.hex() or '-'):
+            return (f'{tag}: a forward-only program leaves {got[:60]} (after decompression), BytesIO has '
+                    f'{(ref.hex() or "-")[:60]}: stream, file and compressed file differ')
+    return None
+
+
+def wprog_cases(rng, tier):
+    out = []
+    kinds = [k for k in WKINDS if k != 'zst' or have_zstd()]
+    # the real serialisers' programs on every holder kind
+    for cls in SERIAL:
+        for en in (['<', '>'] if cls in ENDIAN_CLASSES else [None]):
+            ops = recorded_program(cls, en)
+            for k in kinds:
+                out.append(mk_wprog(k, ops, 'wprog-class', cls, en))
+    fixed = [[['w', '0102'], ['s', 5], ['w', '07']], [['w', '010203'], ['s', 1], ['w', '09']], [['w', '01'], ['s', 3]],
+             [['s', 4], ['w', '']], [['s', 4], ['w', 'ff']], [['w', ''], ['s', 0], ['w', 'aa']], [['w', 'aabb'], ['s', 2], ['w', 'cc']],
+             [['w', 'aabb'], ['s', 0], ['w', 'cc'], ['s', 2], ['w', 'dd']], [['s', 3], ['s', 1], ['w', 'ee']], [['w', '']]]
+    progs = list(fixed)
+    for _ in range({'quick': 150, 'thorough': 1500, 'search': 300}[tier]):
+        ops, pos = [], 0
+        for _ in range(rng.randrange(1, 7)):
+            r = rng.random()
+            if r < 0.5:
+                n = rng.choice([0, 1, 1, 2, 3, 5])
+                ops.append(['w', bytes(rng.randrange(256) for _ in range(n)).hex()])
+                pos += n
+            else:
+                q = rng.random()
+                tgt = pos + rng.randrange(0, 6) if q < 0.7 else pos if q < 0.8 else rng.randrange(0, pos + 1)
+                ops.append(['s', tgt])
+                pos = tgt
+        progs.append(ops)
+    for ops in progs:
+        for k in kinds:
+            out.append(mk_wprog(k, ops))
+    return out
 
 
 # --------------------------------------------------------------------------- implementation side
@@ -1002,6 +1169,8 @@ def impl(case):
         return impl_save(case)
     if o == 'hist':
         return impl_hist(case)
+    if o == 'wprog':
+        return impl_wprog(case)
     raise ValueError(o)
 
 
@@ -1283,6 +1452,8 @@ def oracle(case, out):
         return oracle_save(case, out)
     if d['op'] == 'hist':
         return oracle_hist(case, out)
+    if d['op'] == 'wprog':
+        return oracle_wprog(case, out)
     return None
 
 
@@ -1292,6 +1463,8 @@ def signature(case, what):
         meta = d.get('meta') or ['?', '?', '?', '?']
         kind = 'lower' if meta[1] == meta[1].lower() else 'upper' if meta[1] == meta[1].upper() else 'mixed'
         return f'filemap:{meta[0]}:{kind}'
+    if d['op'] == 'wprog':
+        return f'wprog:{d["kind"]}:{d.get("cls") or "random"}'
     if d['op'] == 'hist':
         import re
         m = re.search(r'step (\d+)/', what)
@@ -1331,6 +1504,11 @@ def shrink_candidates(case):
             yield mk_save(d['cls'], d['dir'], d['stem'], d['ext'], d['ext_sp'], '', d['as_path'], d['stream'], d.get('endian'))
             if d['sfx_sp'] != d['sfx_sp'].lower():
                 yield mk_save(d['cls'], d['dir'], d['stem'], d['ext'], d['ext_sp'], d['sfx_sp'].lower(), d['as_path'], d['stream'], d.get('endian'))
+    if d['op'] == 'wprog' and not d.get('cls'):
+        ops = d['ops']
+        for i in range(len(ops)):
+            if len(ops) > 1:
+                yield mk_wprog(d['kind'], ops[:i] + ops[i + 1:], d['stream'])
     if d['op'] == 'hist':
         steps = d['steps']
         # drop one save step together with everything that depends on it; drop one other step
@@ -1338,8 +1516,14 @@ def shrink_candidates(case):
             rest = [st for st in steps if st.get('id') != sid and st.get('sid') != sid]
             if rest and len(rest) < len(steps):
                 yield mk_hist(rest, d['stream'])
+        # (a rename is never dropped alone: the loads after it carry an expectation that depends on it)
+        for sid in sorted({st['sid'] for st in steps if st['k'] == 'R'}):
+            first = min(i for i, st in enumerate(steps) if st['k'] == 'R' and st['sid'] == sid)
+            rest = [st for i, st in enumerate(steps) if not (i >= first and st.get('sid') == sid)]
+            if rest:
+                yield mk_hist(rest, d['stream'])
         for i in range(len(steps) - 1, -1, -1):
-            if steps[i]['k'] != 'S':
+            if steps[i]['k'] in ('O', 'I', 'L'):
                 yield mk_hist(steps[:i] + steps[i + 1:], d['stream'])
         for i, st in enumerate(steps):
             if st['k'] == 'S' and (st['dir'] or st['stem'] != 'f' or st['as_path']):
